@@ -70,6 +70,22 @@ CHECKS.update({
             BASE_NOTE, "3/C16"),
 })
 
+CHECKS.update({
+    "C01": ("exploration",
+            "dense runtime sweep of the real processor compared online with a zic-derived oracle (TZif read directly), ASan+UBSan slice",
+            "All 387 zones: every 5th minute (quick) / every minute (thorough) of 2000..2049, every second around every zic "
+            "breakpoint and year boundary, bisection of every observed change, descending sweep, managed zones; thorough adds "
+            "every second of the 50 years for 24 seed-chosen zones. The function is piecewise constant with minute-aligned "
+            "breakpoints, so this decides every enumerated instant and brackets every change to the second.",
+            BASE_NOTE + " Oracle: installed zic 2.36 on the source lines recorded beside the tables (cross-read by zoneinfo).", "3/C01"),
+    "C02": ("exploration",
+            "dense runtime sweep vs zic oracle + differential comparison with the extended processor + guarded drop hook + friend-class cache invariant",
+            "As C01 for all 268 basic zones, plus probe-by-probe comparison with the extended processor for every shared name, "
+            "a guarded hook that reports transitions dropped by the full five-slot cache, and a structural cache invariant "
+            "read after every year fill.",
+            BASE_NOTE + " Hook: ACE_TIME_VERIF_HOOKS in BasicZoneProcessor::addTransition.", "3/C02"),
+})
+
 PLANNED = {
 }
 
